@@ -64,14 +64,13 @@ Proof. exact ut_imul_snapshot. Qed.
         would leave a non-positive interval, a non-positive factor, a mismatched shape, a fractional
         dtype, or anything else - has written NOTHING, self included.  Guards, stated explicitly:
         the axis is well-typed (`typed_axis`: its t0 / interval / duration slots hold one-valued time
-        objects separate from the axis and from its sample buffer) and, for += / -=, an operand
-        that is a time object is not the axis itself and does not live in the axis' sample buffer
-        (`u += u` is outside the guard).  The proof shows that once the samples have been written,
+        objects separate from the axis and from its sample buffer); the operand is arbitrary - the
+        axis itself included (`u += u`: a private copy of a time-object operand is taken, c3a0f82).
+        The proof shows that once the samples have been written,
         _follow_shift / the attribute part of __imul__ cannot raise: the slots are readable and
         interval + step > 0 (checked before anything is written) excludes the division by zero. *)
 Theorem C16_uniform_iadd_isub_failure_atomic : forall sign self v s e b l,
   wf s -> typed_axis s self b ->
-  (forall x, v = PRef x -> x <> self /\ forall bl sh k, mem s x = Some (CArr bl sh k) -> bl <> b) ->
   l < next s -> snd (ut_iop sign self v s) = Exn e ->
   snapshot (fst (ut_iop sign self v s)) l = snapshot s l.
 Proof. exact ut_iop_failure_atomic_snapshot. Qed.
@@ -236,10 +235,12 @@ Example C16_ex_uniform_operand :
   wf ex_ut2 /\ mem ex_ut2 7 = Some (CArr 6 [3] (KUniform 1000000000 1 3 5)) /\ 7 < next ex_ut2 /\
   9 < next ex_ut2 /\ ~ In 7 (footprint ex_ut2 9) /\ ~ In 6 (footprint ex_ut2 9).
 Proof. exact ex_ut2_operand_separate. Qed.
-(* the example axis is well-typed and the operand array (object 9) is separate from it *)
-Example C16_ex_uniform_typed : typed_axis ex_ut2 7 6 /\
-  (forall x, PRef 9 = PRef x -> x <> 7 /\ forall bl sh k, mem ex_ut2 x = Some (CArr bl sh k) -> bl <> 6).
+(* the example axis is well-typed; `u += u` is applied *)
+Example C16_ex_uniform_typed : typed_axis ex_ut2 7 6.
 Proof. exact ex_ut2_typed. Qed.
+Example C16_ex_uniform_iadd_self :
+  snd (ut_iop 1 7 (PRef 7) ex_ut) = Ok tt /\ snapshot (fst (ut_iop 1 7 (PRef 7) ex_ut)) 7 <> snapshot ex_ut 7.
+Proof. exact ex_ut_iadd_self. Qed.
 (* `u += [-1,-2,-3] ms` (the step cancels the 1 ms interval) and `u *= 0` are refused with u intact,
    `u -= [-1,-2,-3] ms` is applied and leaves the operand intact *)
 Example C16_ex_uniform_rejections :
